@@ -22,7 +22,7 @@ def add(pid, category, text, note, technique, design_ref):
   }
 
 add('C17', 'proof',
-    "Every law is a set of SMT obligations over the terms produced by executing the real uniform_quantize_tensor functions on symbolic arrays: bit-precise (IEEE-754 float32 / two's complement) for sign, finiteness, range, zero-point, dtype, wrap-around, per-channel broadcast and bias laws over ALL finite float32 inputs; real-arithmetic rounding-error model (sound over-approximation of float32) for the half-step error bounds, coverage, code round trip and monotonicity. unsat = holds for every value at the stated widths/shapes; sat is replayed on the real NumPy code before it is reported.",
+    "Every law is a set of SMT obligations over the terms produced by executing the real uniform_quantize_tensor functions on symbolic arrays: bit-precise (IEEE-754 float32 / two's complement) for sign, finiteness, range, zero-point, dtype, wrap-around, per-channel broadcast and bias laws over ALL finite float32 inputs; real-arithmetic rounding-error model (sound over-approximation of float32) for the half-step error bounds, coverage, code round trip and monotonicity. unsat = holds for every value at the stated widths/shapes; sat is replayed on the real NumPy code before it is reported. Out-of-range inputs saturate at the end of the range they lie beyond (bit-precise, all finite float32 x).",
     "Trusted: z3; the symbolic NumPy shim (validated against real NumPy by selftest); the rounding model fl(v)=v(1+e), |e|<=2^-24 plus subnormal term; assume-guarantee composition of Lemma P (library parameters satisfy G) with the laws proved for arbitrary parameters in G. Bounds: num_bits {4,8,16}, one symbolic element per scalar law, tensors of rank<=3 (quick) / <=4 (thorough) for the broadcast law, float32 statistics. Tolerances: half a step + 8*(2^bits)*2^-24 steps of float32 rounding.",
     "symbolic execution of the real functions (operator overloading, module-global np rebound) + z3 QF_FP/QF_BV/QF_NRA queries",
     'DESIGN.md 3/C17')
@@ -40,7 +40,7 @@ add('C10', 'model_checking',
     'DESIGN.md 3/C10')
 
 add('C16', 'model_checking',
-    "The real _process_constant_map and _serialize_large_model run with SYMBOLIC buffer lengths and flatbuffer length (module-level len and the serializer rebound); every path of the 16-way padding loops is explored and z3 (linear integer arithmetic) decides for all lengths that every external buffer's offset is 16-byte aligned, in bounds, beyond the flatbuffer, disjoint from the others and selects exactly that buffer's bytes, that data-less and empty buffers are serialised as in the ordinary path, and that no offset/size scalar changes default-ness between the two passes (the condition under which the FlatBuffers builder produces equal lengths). The builder assumption itself is validated with the real builder by pushing synthetic and fixture models through the real public path with the threshold hook and diffing large vs ordinary form.",
+    "The real _process_constant_map and _serialize_large_model run with SYMBOLIC buffer lengths and flatbuffer length (module-level len and the serializer rebound); every path of the 16-way padding loops is explored and z3 (linear integer arithmetic) decides for all lengths that every external buffer's offset is 16-byte aligned, in bounds, beyond the flatbuffer, disjoint from the others and selects exactly that buffer's bytes, that data-less and empty buffers are serialised as in the ordinary path, and that no offset/size scalar changes default-ness between the two passes (the condition under which the FlatBuffers builder produces equal lengths). The same obligations are decided for the SECOND quantize() of a used Quantizer (first call real and concrete through the large path, recipe reloaded, second call's serialisation on symbolic buffers inside the ModelModifier the Quantizer really uses). The builder assumption itself is validated with the real builder by pushing synthetic and fixture models through the real public path with the threshold hook and diffing large vs ordinary form.",
     "Assumes: final serialisation length == dummy length when no scalar changes default-ness (validated concretely, not proved: FlatBuffers builder is C-like library code outside the encoding); <=2 buffers quick / <=3 thorough (any subset without data), arbitrary lengths. Interpreter loading both forms is FFI and outside the claim. Uses hook commit 5d5c148 (AI_EDGE_QUANTIZER_VERIF=1 + AI_EDGE_QUANTIZER_VERIF_LARGE_MODEL_THRESHOLD) for the concrete part and replays.",
     "path-exhaustive symbolic execution with symbolic lengths (SymInt) + z3 QF_LIA; differential run of the real serializer via the threshold hook",
     'DESIGN.md 3/C16')
@@ -82,14 +82,14 @@ add('C05', 'model_checking',
     'DESIGN.md 3/C05')
 
 add('C09', 'model_checking',
-    "The real Quantizer.calibrate / Calibrator / min_max_calibrate / moving_average_update / init_qsvs run with the interpreter replaced by a fake (validated against the real one) whose runtime tensors are FRESH SYMBOLIC arrays per (sample, tensor). For datasets of 1..3 samples and every split point, each recorded min/max is compared as a term with the reference fold from the property text (first sample initialises, ema 0.95/0.05 in dataset order, each tensor once per sample), constants with their true per-tensor/per-channel min/max, resume(D1 then D2) with the single pass over D1+D2, and the previous result is shown untouched (identity and terms).",
+    "The real Quantizer.calibrate / Calibrator / min_max_calibrate / moving_average_update / init_qsvs run with the interpreter replaced by a fake (validated against the real one) whose runtime tensors are FRESH SYMBOLIC arrays per (sample, tensor). For datasets of 1..3 samples and every split point, each recorded min/max is compared as a term with the reference fold from the property text (first sample initialises, ema 0.95/0.05 in dataset order, each tensor once per sample), constants with their true per-tensor/per-channel min/max, resume(D1 then D2) with the single pass over D1+D2, and the previous result is shown untouched (identity and terms). Histories on ONE Quantizer object: a fresh calibration after a calibration on other samples is exact, a resumed session on the same object equals the single pass, results handed out earlier are not rewritten.",
     "Assumes: what LiteRT computes is outside the claim (fresh arbitrary tensors); float ops uninterpreted (add/mul commutative); n<=3 (thorough 4); skeleton subset of 12 (thorough: all).",
     "symbolic execution of the real calibration code over symbolic per-sample tensors (UF terms, z3), fake interpreter as nondeterministic environment stub, replay on the real interpreter",
     'DESIGN.md 3/C09')
 
 add('C14', 'model_checking',
-    "Short API call histories (quantize A then load/quantize B on one Quantizer; two Quantizers sharing one calibration-result object; repeated quantize; calibrate with a previous result; get_quantization_recipe in between) run through the real Quantizer with SYMBOLIC statistics; after every call the caller-owned arguments (calibration result, previous result, dataset, recipe list, model bytes) are compared with a snapshot (identity and terms), and the model rewritten by the last quantize() is compared with the one a fresh Quantizer produces from equal arguments - structure concretely, every scale/zero-point/constant as a term whose equality z3 decides (i.e. whether ANY statistics make the two differ).",
-    "Assumes: the five scenarios x 6 recipe pairs x 8 skeletons (thorough: more skeletons); float ops uninterpreted (sound for equality of terms built by the same code); fresh-process / PYTHONHASHSEED independence is outside the symbolic claim (a concrete two-process sha256 comparison is reported in the thorough tier); validate() purity is checked in C18's harness.",
+    "Short API call histories (quantize A then load/quantize B on one Quantizer; two Quantizers sharing one calibration-result object; repeated quantize; calibrate with a previous result; get_quantization_recipe in between) run through the real Quantizer with SYMBOLIC statistics; after every call the caller-owned arguments (calibration result, previous result, dataset, recipe list, model bytes) are compared with a snapshot (identity and terms), and the model rewritten by the last quantize() is compared with the one a fresh Quantizer produces from equal arguments - structure concretely, every scale/zero-point/constant as a term whose equality z3 decides (i.e. whether ANY statistics make the two differ). Process-wide state: references are computed after the repo's module-level containers, class/singleton containers and functools caches are put back to their import-time content (model of a fresh process); scenarios S6/S7 quantize or calibrate ANOTHER checkpoint of the same architecture (equal tensor names, shapes, buffer indices, other weights) first. Byte level, concretely: the same histories through the real serializer on the ordinary and the large-model path, and the other-model history in two really fresh interpreter processes.",
+    "Assumes: the seven scenarios x 6 recipe pairs x 8 skeletons (thorough: more skeletons); float ops uninterpreted (sound for equality of terms built by the same code); the fresh-process model does not see state in closures, C extensions or containers nested deeper than one level in a singleton; PYTHONHASHSEED independence is outside the symbolic claim (a concrete two-process sha256 comparison is reported in the thorough tier); validate() purity is checked in C18's harness.",
     "relational symbolic execution of API call histories on shared symbolic statistics (UF terms, z3), snapshot comparison of caller-owned objects, byte-level replay through the public API",
     'DESIGN.md 3/C14')
 
@@ -106,7 +106,7 @@ add('C12', 'model_checking',
     'DESIGN.md 3/C12')
 
 add('C13', 'model_checking',
-    "For every operator selector (all 25) x algorithm, a config with SYMBOLIC scalar fields (num_bits and block_size unbounded integers, symmetric / explicit_dequantize booleans, enum fields and presence of the activation/weight config forked, skip_checks off) goes through the real update and resolve code with the REAL support checks and default policy: z3 decides on every path that a specific-op update either accepts or raises ValueError (nothing else), that the '*' update never raises and is applied at resolution time iff the specific update accepts (else default no-quantize), and that every accepted config lies inside the finite lattice (no 5-bit width, stray block size, negative width is ever accepted). Every accepted pair of that lattice (found by exhaustive enumeration with the real check) is then pushed through the whole real pipeline on its op's skeleton with symbolic statistics: no exception, C01 well-formedness and C03 mode oracles hold.",
+    "For every operator selector (all 25) x algorithm, a config with SYMBOLIC scalar fields (num_bits and block_size unbounded integers, symmetric / explicit_dequantize booleans, enum fields and presence of the activation/weight config forked, skip_checks off) goes through the real update and resolve code with the REAL support checks and default policy: z3 decides on every path that a specific-op update either accepts or raises ValueError (nothing else), that the '*' update never raises and is applied at resolution time iff the specific update accepts (else default no-quantize), and that every accepted config lies inside the finite lattice (no 5-bit width, stray block size, negative width is ever accepted). Every accepted pair of that lattice (found by exhaustive enumeration with the real check) is then pushed through the whole real pipeline on its op's skeleton with symbolic statistics: no exception, C01 well-formedness, the interpreter builder's parameter checks (as many zero points as scales; several scales need a quantized dimension inside the rank whose extent equals their number) and C03 mode oracles hold. Configs reach the pipeline in their JSON (string-valued) form, as every recipe file does.",
     "Assumes: runtime soundness (interpreter prepares, outputs track the float model) is FFI (C06/C07 not applicable); skeleton per op kind (quick: first variant, thorough: all variants); float-casting ignores symmetric/granularity/block_size/explicit_dequantize of the weight config (projected away, an unusual variant is materialised); README table is reported as documentation drift only.",
     "path-exhaustive symbolic execution of the real acceptance code on symbolic config fields (z3 LIA/Bool) + pipeline exploration (UF) for every accepted pair; concrete replay",
     'DESIGN.md 3/C13')
